@@ -516,11 +516,19 @@ pub fn decode_cfg(t: &mut Tape, p: &Profile, n: usize, intr: bool) -> RunCfg {
             None
         }
     } else if p.force_limit {
-        Some(1 + t.below(4))
+        if t.chance(1, 8) {
+            Some([n.max(1), n + 1, 1000, u32::MAX as usize, 1usize << 60, usize::MAX][t.below(6)])
+        } else {
+            Some(1 + t.below(4))
+        }
     } else {
         match t.below(6) {
             0 => None,
             1 => Some(0),
+            2 if t.chance(1, 3) => {
+                // limits at and far beyond the number of functions
+                Some([n.max(1), n + 1, 1000, u32::MAX as usize, 1usize << 60, usize::MAX][t.below(6)])
+            }
             _ => Some(1 + t.below(4)),
         }
     };
